@@ -1247,6 +1247,175 @@ def app_stream(ctx, rng, count):
             ctx.sample(dict(case, exit=r['exit'], pipelines=[(s, sk) for (s, sk, _) in (r['pipelines'] or [])]))
 
 
+# ------------------------------------------------------------------ Application.run over a scripted PipelineSeries
+SERIES_KINDS = ['list', 'tuple', 'generator', 'iterator']
+
+
+def run_series(case):
+    """Application(PipelineSeries(<list | tuple | generator | iterator of Pipelines>)).run() with scripted sources and
+    tasks.  The series is read while it is being run: `series.concurrency = k` and `tuple(series.pipelines)` before the
+    run and / or from inside a task of the first pipeline (what plugins and PluginSetupTask do)."""
+    from wpull.application.app import Application
+    from wpull.pipeline.pipeline import Pipeline, PipelineSeries, ItemSource, ItemTask
+    log, begins, polls = [], [], {}
+    holder = {}
+
+    class Source(ItemSource):
+        def __init__(self, ix, items):
+            self.ix, self.items = ix, list(items)
+            polls[ix] = 0
+
+        @asyncio.coroutine
+        def get_item(self):
+            polls[self.ix] += 1
+            if self.items:
+                return self.items.pop(0)
+
+    class Record(ItemTask):
+        def __init__(self, ix, t):
+            self.ix, self.t = ix, t
+
+        @asyncio.coroutine
+        def process(self, item):
+            first = item.endswith('.0') and self.t == 0
+            if first and self.ix == 0:
+                if case['set_conc'] == 'during':
+                    holder['series'].concurrency = case['conc']
+                if case['read'] == 'during':
+                    holder['seen'] = len(tuple(holder['series'].pipelines))
+            if first and case['stop_during'] == self.ix:
+                holder['app'].stop()
+            yield from asyncio.sleep(0)
+            if first and case['fail_in'] == self.ix:
+                raise TaskError('pipeline %d' % self.ix)
+            log.append((self.ix, self.t, item))
+
+    pipes = []
+    for ix, (n_items, n_tasks, skippable) in enumerate(case['pipes']):
+        p = Pipeline(Source(ix, ['p%d.%d' % (ix, j) for j in range(n_items)]), [Record(ix, t) for t in range(n_tasks)])
+        p.skippable = bool(skippable)
+        pipes.append(p)
+    kind = case['kind']
+    arg = {'list': lambda: list(pipes), 'tuple': lambda: tuple(pipes), 'generator': lambda: (p for p in pipes),
+           'iterator': lambda: iter(pipes)}[kind]()
+    series = PipelineSeries(arg)
+    holder['series'] = series
+    for ix in case['conc_pipes']:
+        series.concurrency_pipelines.add(pipes[ix])
+    if case['set_conc'] == 'before':
+        series.concurrency = case['conc']
+    if case['read'] == 'before':
+        holder['seen'] = len(tuple(series.pipelines))
+    app = Application(series)
+    holder['app'] = app
+    app.event_dispatcher.add_listener(app.Event.pipeline_begin, lambda p: begins.append(pipes.index(p)))
+    loop = sched.new_det_loop(case['seed'])
+    saved = os.dup(2)
+    devnull = os.open(os.devnull, os.O_WRONLY)
+    try:
+        os.dup2(devnull, 2)
+        done, task = loop.run_until_quiescent(app.run(), max_steps=200000)
+        exit_code, error = None, None
+        if done:
+            try:
+                exit_code = task.result()
+            except BaseException as e:     # noqa
+                error = type(e).__name__
+        for t in asyncio.all_tasks(loop):
+            t.cancel()
+    finally:
+        os.dup2(saved, 2)
+        os.close(saved)
+        os.close(devnull)
+        sched.close_loop(loop)
+    return {'begins': begins, 'log': log, 'polls': polls, 'left': [len(p._producer._item_source.items) for p in pipes],
+            'exit': exit_code, 'error': error, 'hung': not done, 'seen': holder.get('seen'),
+            'concs': [p.concurrency for p in pipes], 'after': len(tuple(series.pipelines))}
+
+
+def series_case(ctx, case):
+    r = run_series(case)
+    specs = case['pipes']
+    spec = '.'.join('w' + ('s' if sk else 'n') for (_, _, sk) in specs)
+    sd = '-' if case['stop_during'] is None else str(case['stop_during'])
+    fi = '-' if case['fail_in'] is None else str(case['fail_in'])
+    rep = ctx.model.ask(['pipeline app %s %s %s' % (spec, sd, fi)])[0]
+    expected = [int(x) for x in rep.split('.')] if rep else []
+    if r['begins'] != expected:
+        ctx.disagree('app-run', dict(case, spec=spec), rep, '.'.join(str(b) for b in r['begins']))
+    # direct oracle (independent of the model)
+    if r['hung']:
+        ctx.fail('hang', 'application', case, 'Application.run() over the scripted series did not complete')
+    else:
+        n = len(specs)
+        must = []           # pipelines that have to be processed
+        stopping = False
+        for ix in range(n):
+            if stopping and specs[ix][2]:
+                continue
+            must.append(ix)
+            if case['fail_in'] == ix:
+                break
+            if case['stop_during'] == ix:
+                stopping = True
+        for ix in must:
+            if r['begins'].count(ix) != 1:
+                ctx.fail('pipeline-not-run', 'PipelineSeries', case,
+                         'pipeline %d of the %d-pipeline series (built from a %s) was begun %d times (begun: %r, exit status %r): '
+                         'its source was polled %d times, %d of its items are left'
+                         % (ix, n, case['kind'], r['begins'].count(ix), r['begins'], r['exit'], r['polls'][ix], r['left'][ix]))
+                break
+            unstopped = case['stop_during'] != ix and case['fail_in'] != ix
+            if unstopped:
+                done_items = {it for (pix, t, it) in r['log'] if pix == ix and t == specs[ix][1] - 1}
+                if r['left'][ix] or len(done_items) != specs[ix][0]:
+                    ctx.fail('items-left-unprocessed', 'series-pipeline', case,
+                             'pipeline %d: %d items left in its source, %d of %d through all tasks'
+                             % (ix, r['left'][ix], len(done_items), specs[ix][0]))
+                    break
+        if case['fail_in'] is not None and case['fail_in'] in must and r['exit'] == 0:
+            ctx.fail('error-swallowed', 'Application.run', case, 'a task of pipeline %d raised but the exit status is 0' % case['fail_in'])
+        if case['fail_in'] is None and r['exit'] != 0:
+            ctx.fail('spurious-error', 'Application.run', case, 'exit status %r (%r) although nothing failed' % (r['exit'], r['error']))
+        if case['set_conc'] != 'never' and (case['set_conc'] == 'before' or 0 in r['begins']):
+            for ix in case['conc_pipes']:
+                if r['concs'][ix] != case['conc']:
+                    ctx.fail('concurrency-not-applied', 'PipelineSeries.concurrency', case,
+                             'pipeline %d has concurrency %r after series.concurrency = %d' % (ix, r['concs'][ix], case['conc']))
+                    break
+        if r['seen'] is not None and r['seen'] != n or r['after'] != n:
+            ctx.fail('pipeline-not-run', 'PipelineSeries.pipelines', case,
+                     'series.pipelines showed %r pipelines when read %s and %d after the run; the series has %d'
+                     % (r['seen'], case['read'], r['after'], n))
+    tags = ['series:' + case['kind'], 'series:set-conc-' + case['set_conc'], 'series:read-' + case['read'],
+            'series:exit=%s' % r['exit']]
+    if case['stop_during'] is not None:
+        tags.append('series:stop')
+    if case['fail_in'] is not None:
+        tags.append('series:task-raises')
+    ctx.case(('series', json.dumps(case, sort_keys=True)), nontrivial=True, tags=tags)
+    return r
+
+
+def series_stream(ctx, rng, count):
+    for ix in range(count):
+        n = rng.choice([2, 3, 3, 4])
+        pipes = [[rng.choice([1, 2, 3]), rng.choice([1, 2]), (i > 0 and i < n - 1 and rng.random() < 0.5)] for i in range(n)]
+        case = {'stream': 'series', 'kind': SERIES_KINDS[ix % 4], 'pipes': pipes,
+                'set_conc': rng.choice(['never', 'before', 'during', 'during']), 'conc': rng.choice([1, 2, 3]),
+                'conc_pipes': sorted(rng.sample(range(n), rng.choice([1, 1, 2]))),
+                'read': rng.choice(['never', 'never', 'before', 'during']),
+                'stop_during': None, 'fail_in': None, 'seed': rng.randrange(1 << 20)}
+        r = rng.random()
+        if r < 0.2:
+            case['stop_during'] = rng.randrange(n)
+        elif r < 0.35:
+            case['fail_in'] = rng.randrange(n)
+        res = series_case(ctx, case)
+        if ix < 1:
+            ctx.sample(dict(case, begins=res['begins'], exit=res['exit']))
+
+
 # ------------------------------------------------------------------ entry points
 def stop_with_item_queued(res):
     """Was stop() called in a state with an item in the queue and at least one item inside a task?"""
@@ -1273,6 +1442,9 @@ def replay(ctx, case, kind=None, where=None):
         return
     if case.get('stream') == 'app':
         app_case(ctx, case)
+        return
+    if case.get('stream') == 'series':
+        series_case(ctx, case)
         return
     base = {kk: case[kk] for kk in ('n', 'k', 'conc', 'src_fail', 'url_source') if kk in case}
     import random
@@ -1333,6 +1505,8 @@ def run(ctx):
     # the whole application: Builder-built pipeline series, Application.run(), stop by request hook / --quota,
     # URLTable.check_out failures
     app_stream(ctx, ctx.subrng('app'), ctx.scale(40, 400))
+    # Application.run over a scripted PipelineSeries built from a list / tuple / generator / iterator, read while run
+    series_stream(ctx, ctx.subrng('series'), ctx.scale(400, 4000))
     # stop / source failure with every worker busy (concurrency up to 4) and an item queued; staggered finishes
     sb = gen_stop_busy(ctx, ctx.subrng('stop-busy'), ctx.scale(600, 6000))
     check_cases(ctx, sb, tags=['stop-busy-scenario'])
@@ -1373,4 +1547,5 @@ def search(ctx):
     check_cases(ctx, gen_url_source(ctx, rng, ctx.scale(100, 300)), tags=['url-source'])
     check_cases(ctx, gen_second_run(ctx, rng, ctx.scale(100, 300)), tags=['second-run'])
     app_stream(ctx, rng, ctx.scale(2, 5))
+    series_stream(ctx, rng, ctx.scale(20, 50))
     free_run(ctx, rng, ctx.scale(100, 300))
